@@ -149,11 +149,18 @@ func stOpen(dir string, capMB uint64, node [32]byte) (*stStore, error) {
 // prune() starts `go db.Compact(...)`; closing the database before that goroutine has finished makes it
 // panic (pebble: closed) and kills the process.  Wait until no goroutine started by the store package is left
 // (matched by its "created by" frame, so the wait survives renames / extraction of the compaction closure).
+var stackBuf = make([]byte, 1<<20)
+
 func waitPruneGoroutines() {
-	buf := make([]byte, 1<<20)
 	for i := 0; i < 20000; i++ {
-		n := runtime.Stack(buf, true)
-		if !bytes.Contains(buf[:n], []byte("created by github.com/zen-eth/shisui/storage/pebble.")) {
+		// runtime.Stack truncates silently when the buffer is too small (many goroutines alive): the goroutine looked
+		// for may then be missing from the dump, so grow the buffer until the whole dump fits
+		n := runtime.Stack(stackBuf, true)
+		for n == len(stackBuf) && len(stackBuf) < 1<<30 {
+			stackBuf = make([]byte, 2*len(stackBuf))
+			n = runtime.Stack(stackBuf, true)
+		}
+		if !bytes.Contains(stackBuf[:n], []byte("created by github.com/zen-eth/shisui/storage/pebble.")) {
 			return
 		}
 		time.Sleep(500 * time.Microsecond)
@@ -345,14 +352,12 @@ func stHistory(c *Ctx, kind string, capMB uint64, node [32]byte, ops []stOp) {
 				res = s.get(o.id)
 			case 'r':
 				if err := s.reopen(); err != nil {
-					steps = append(steps, "openerr")
 					panic("reopen: " + err.Error())
 				}
 				res = "-"
 			case 'c':
 				s.capMB = o.cap
 				if err := s.reopen(); err != nil {
-					steps = append(steps, "openerr")
 					panic("reopen: " + err.Error())
 				}
 				res = "-"
@@ -361,7 +366,13 @@ func stHistory(c *Ctx, kind string, capMB uint64, node [32]byte, ops []stOp) {
 		}
 	})
 	if p {
-		c.Emit("%s | panic %s after=%d", head, msg, len(steps))
+		// the history failed (NewStorage returned an error, or a panic) at op number len(steps): the observations of the
+		// steps before it are still reported and compared
+		st := strings.Join(steps, ";")
+		if len(steps) == 0 {
+			st = "."
+		}
+		c.Emit("%s | panic %s after=%d %s", head, msg, len(steps), st)
 		return
 	}
 	st := strings.Join(steps, ";")
@@ -913,6 +924,9 @@ func stExtraGen(c *Ctx, prop string) {
 }
 
 func runStorage(c *Ctx, prop string) {
+	defer func() {
+		c.Stats["goroutines_alive_at_end"] = runtime.NumGoroutine()
+	}()
 	// a use-after-free of a pebble buffer shows up as a memory fault: turn it into a recoverable panic
 	debug.SetPanicOnFault(true)
 	if len(c.Args) >= 2 && c.Args[0] == "replay" {
